@@ -53,7 +53,10 @@ def value():
     return st.one_of(
         finite(-1e7, 1e7), finite(0.0, 1.0), finite(1e4, 1e8),
         st.sampled_from([0.0, 1.013e5, 20.0, -1.0, 1e-100, -1e-100, 1.5e100, -2.5e+101, 9.9999999999999995e-101,
-                         1e-99, -1e-99, 0.99999999999999989, 1.2345678901234567e5, -9.9999999999999e9, 5e-324]),
+                         1e-99, -1e-99, 0.99999999999999989, 1.2345678901234567e5, -9.9999999999999e9, 5e-324,
+                         # too wide for the field AND rounding up to the next power of ten when a decimal is dropped
+                         # (the exponent then loses a digit: -9.99..e-100 -> -1.00..e-99)
+                         -9.9999999999999e-100, -9.99999999999996e-100, -9.9999999999999e+99, -9.99999999999997e-10]),
         st.builds(lambda m, e, s: s * float('%.17ge%d' % (m, e)), finite(1.0, 9.999999999999998),
                   st.integers(-120, 120), st.sampled_from([1, -1])))
 
